@@ -92,6 +92,14 @@ func (lm *LogModel) poll() {
 		lm.gen++
 		return
 	}
+	// the file is exactly as long as the server's log position minus what is still buffered
+	// (checked at quiescent points only, outside a rewrite's swap)
+	if inst.atPoint == "" && !srv.shrinking {
+		if fi, err := os.Stat(srv.opts.AppendFileName); err == nil && int(fi.Size())+len(srv.aofbuf) != srv.aofsz {
+			lm.bad = fmt.Errorf("the log file holds %d bytes and %d are buffered, but the server's log position is %d", fi.Size(), len(srv.aofbuf), srv.aofsz)
+			return
+		}
+	}
 	if srv.aofsz == lm.consumed {
 		return
 	}
